@@ -576,6 +576,19 @@ gen_hostile(hcb_t cb, void *clo)
 			}
 		}
 	}
+	/* H2b: every INTERVAL 2..13 against every single BYMONTH, for the two coarse frequencies: the congruence
+	 * pre-checks there depend on whether the BYMONTH month lies before or after DTSTART's month */
+	for (int f = RF_YEARLY; f <= RF_MONTHLY; f++) {
+		for (int I = 2; I <= 13; I++) {
+			for (int mon = 1; mon <= 12; mon++) {
+				if (hostile_quick && I > 7 && (mon % 3)) continue;
+				snprintf(h.rrule, sizeof(h.rrule), "FREQ=%s;INTERVAL=%d;BYMONTH=%d", fnm[f], I, mon);
+				snprintf(h.shape, sizeof(h.shape), "%s/interval-vs-each-MONTH/i=%s/%s", fnm[f], iclass(I), mon <= 2 ? "month-le-feb" : "month-gt-feb");
+				h.freq = f;
+				cb(&h, clo);
+			}
+		}
+	}
 	/* H3: INTERVAL alone */
 	for (int f = RF_YEARLY; f <= RF_SECONDLY; f++) {
 		for (int i = 0; i < niv; i++) {
